@@ -362,3 +362,83 @@ NARROW_SCOPE = {
 
 def narrow_for_property(F, pid, rule_id):
 	return narrow_arith(F, rule_id, NARROW_SCOPE[pid])
+
+# ----------------------------------------------------------------------------- field-versus-field comparison census
+# Comparisons whose two sides are both plain field reads (a received parameter against a configured limit, a stored id against a
+# message's id) are few (65 on today's tree) and each states a protocol rule.  The table rules/provenance_cmps.json freezes, per function,
+# which field is compared with which and with what operator (orientation-normalised: the lexicographically smaller field name first).
+# A wrong-but-type-compatible field (minimum for maximum), a flipped or loosened operator (< for <=) produces a key outside the table.
+_CMPS = {}
+_CMP_TABLE = None
+# comparisons that exist only inside debug assertions (the dev profile of the thorough tier sees them, the release profile does not)
+_DEBUG_ONLY_CMPS = {('ln/channel.rs', 'get_available_balances_for_scope', 'next_outbound_htlc_limit_msat', 'next_outbound_htlc_minimum_msat', 'Ge')}
+_FLIP = {'Lt': 'Gt', 'Le': 'Ge', 'Gt': 'Lt', 'Ge': 'Le', 'Eq': 'Eq', 'Ne': 'Ne'}
+
+def cmp_table():
+	global _CMP_TABLE
+	if _CMP_TABLE is None:
+		p = os.path.join(os.path.dirname(os.path.abspath(__file__)), 'provenance_cmps.json')
+		_CMP_TABLE = {tuple(x) for x in json.load(open(p))}
+	return _CMP_TABLE
+
+def cmp_census(F, prefix='lightning'):
+	if F.dir in _CMPS:
+		return _CMPS[F.dir]
+	rows = []
+	for n, r in F.fns.items():
+		if not n.startswith(prefix) or 'ser_macros' in r['file']:
+			continue
+		try:
+			fu = F.func(n)
+		except AnchorMissing:
+			continue
+		for bi, si, dl, op, a, b in comparisons(fu):
+			ea, eb = strip(a), strip(b)
+			if ea[0] == 'field' and eb[0] == 'field' and not str(ea[2]).isdigit() and not str(eb[2]).isdigit():
+				fa, fb = ea[2], eb[2]
+				if fa > fb:
+					fa, fb, op = fb, fa, _FLIP[op]
+				rows.append({'file': r['file'], 'fn': n, 'line': fu.blocks[bi]['s'][si][0], 'key': (r['file'].split('src/')[-1] if 'src/' in r['file'] else r['file'], root_fn(n).rsplit('::', 1)[-1], fa, fb, op)})
+	_CMPS[F.dir] = rows
+	return rows
+
+def cmp_rule(F, rule_id, file_res, floor=1):
+	import re
+	rows = [x for x in cmp_census(F) if any(re.search(p, x['file']) for p in file_res)]
+	if len(rows) < floor:
+		return [Result(rule_id, False, 'anchor:field-comparisons', 'only %d field-versus-field comparisons found in %s (expected >= %d)' % (len(rows), file_res, floor))]
+	tab = cmp_table()
+	out = []
+	for x in rows:
+		if x['key'] not in tab:
+			fl, fn, fa, fb, op = x['key']
+			near = sorted(k for k in tab if k[0] == fl and k[1] == fn and (k[2] in (fa, fb) or k[3] in (fa, fb)))
+			out.append(Result(rule_id, False, 'cmp:%s:%s %s %s' % (fn, fa, op, fb), '%s compares field `%s` %s field `%s`: not one of the reviewed field-versus-field comparisons of this function%s (wrong field, or a flipped / loosened operator?)' % (fn, fa, op, fb, (' - reviewed there: %s' % [' '.join(k[2:]) for k in near]) if near else ''), 1, where=F.where(x['fn'], x['line'])))
+	# reviewed comparisons of these files that disappeared while their function is still there (a dropped limit check)
+	have = {x['key'] for x in rows}
+	tails = {}
+	for n, r in F.fns.items():
+		if any(re.search(p, r['file']) for p in file_res):
+			tails.setdefault(r['file'].split('src/')[-1] if 'src/' in r['file'] else r['file'], set()).add(root_fn(n).rsplit('::', 1)[-1])
+	for k in sorted(tab):
+		if k in _DEBUG_ONLY_CMPS:
+			continue   # exists only with debug assertions on (dev profile)
+		if any(re.search(p, k[0]) or re.search(p, 'x/src/' + k[0]) for p in file_res) and k not in have and k[1] in tails.get(k[0], ()):
+			out.append(Result(rule_id, False, 'cmp-dropped:%s:%s %s %s' % (k[1], k[2], k[4], k[3]), '%s no longer compares field `%s` %s field `%s` (a reviewed limit / identity check disappeared or changed)' % (k[1], k[2], k[4], k[3]), 1))
+	if not out:
+		out.append(Result(rule_id, True, 'ok:field-comparisons', '%d field-versus-field comparisons in %s, all in the reviewed table and none of the table missing' % (len(rows), '|'.join(file_res)), len(rows)))
+	return out
+
+CMP_SCOPE = {
+	'C01': [r'ln/channel\.rs$', r'ln/chan_utils\.rs$', r'sign/tx_builder\.rs$'],
+	'C02': [r'ln/channelmanager\.rs$'],
+	'C03': [r'ln/outbound_payment\.rs$'],
+	'C06': [r'chain/package\.rs$'],
+	'C07': [r'chain/channelmonitor\.rs$'],
+	'C13': [r'util/ser\.rs$'],
+	'C17': [r'routing/gossip\.rs$'],
+	'C20': [r'lightning-block-sync/src/lib\.rs$'],
+}
+
+def cmps_for_property(F, pid, rule_id):
+	return cmp_rule(F, rule_id, CMP_SCOPE[pid])
